@@ -791,6 +791,28 @@ def classify_inv(ctx, f, t, state, acc):
             if ls[1] == state and ls[0] == acc:
                 return ('rank', t[2][0])
         return None
+    # sum(LIVE < letter index): the number of live arcs before the letter = its rank among the live arcs
+    # sum(T[S][LIVE] < T[S][letter index]): the rank of the letter's table entry among the live entries = the inverse permutation
+    if is_call(t, 'numpy.sum', 'builtins.sum', 'numpy.count_nonzero') and len(t[2]) == 1 and t[2][0][0] == 'cmp' and t[2][0][1] == '<':
+        def letter_index0(x):
+            x = strip_int(x)
+            if x[0] == 'call' and x[1][0] == 'attr' and x[1][2] in ('index', 'find') and len(x[2]) == 1 and x[1][1] == ('c', ALPHA):
+                return x[2][0]
+            return None
+        lhs, rhs = t[2][0][2], t[2][0][3]
+        ls = K.live_set(lhs, f)
+        if ls is not None and ls[1] == state and ls[0] == acc and letter_index0(rhs) is not None:
+            return ('rank', letter_index0(rhs))
+        if rhs[0] == 'sub' and letter_index0(rhs[2]) is not None:
+            row = rhs[1]
+            if row[0] == 'sub' and row[1][0] == 'v' and row[1][1] == 'shuffles' and row[2] == state:
+                if lhs == row:
+                    return ('dev', 'the digit counts the entries of the WHOLE table row below the entry of the letter: that is its rank '
+                                   'among all four columns, not among the live arcs (equal only at out-degree 4)')
+                if lhs[0] == 'sub' and lhs[1] == row:
+                    ls2 = K.live_set(lhs[2], f)
+                    if ls2 is not None and ls2[1] == state and ls2[0] == acc:
+                        return ('perm-inverse', letter_index0(rhs[2]))
     # where(P == r)[0][0]   |   argmax(P == r)  (first position of the match; P is a permutation, so there is exactly one)
     c = None
     if t[0] == 'sub' and t[2] == ('c', 0) and t[1][0] == 'sub' and t[1][2] == ('c', 0) and \
@@ -804,7 +826,7 @@ def classify_inv(ctx, f, t, state, acc):
 
         def letter_index(x):
             x = strip_int(x)
-            if x[0] == 'call' and x[1][0] == 'attr' and x[1][2] == 'index' and len(x[2]) == 1 and x[1][1] == ('c', ALPHA):
+            if x[0] == 'call' and x[1][0] == 'attr' and x[1][2] in ('index', 'find') and len(x[2]) == 1 and x[1][1] == ('c', ALPHA):
                 return x[2][0]
             return None
         if c[0] == 'cmp' and c[1] == '==':
